@@ -74,6 +74,19 @@ def analyse():
     for cn, c in classes.items():
         for mn, fn in c["methods"].items():
             reads, calls = set(), []
+            # local variables bound to `self` or to a field of self (e.g. `obj = self` in DerivePath)
+            local_types = {}
+            for n in ast.walk(fn):
+                if isinstance(n, ast.Assign) and len(n.targets) == 1 and isinstance(n.targets[0], ast.Name):
+                    v = n.value
+                    if isinstance(v, ast.Name) and v.id == "self":
+                        local_types[n.targets[0].id] = subclasses(cn) | set(ancestors(cn))
+                    elif isinstance(v, ast.Attribute) and isinstance(v.value, ast.Name) and v.value.id == "self":
+                        tys = set()
+                        for t in field_types(cn, v.attr):
+                            tys |= subclasses(t)
+                        if tys:
+                            local_types[n.targets[0].id] = tys
             for n in ast.walk(fn):
                 if isinstance(n, ast.Attribute) and isinstance(n.value, ast.Name) and n.value.id == "self":
                     for a in ancestors(cn):
@@ -101,6 +114,8 @@ def analyse():
                                     tys |= subclasses(nm)
                             if tys:
                                 calls.append((tys, n.func.attr))
+                    elif isinstance(recv, ast.Name) and recv.id in local_types:
+                        calls.append((local_types[recv.id], n.func.attr))
             info[(cn, mn)] = (reads, calls)
     reach = {k: set(v[0]) for k, v in info.items()}
     changed = True
